@@ -102,18 +102,19 @@ EdgesAtMostTwice(F) == LET S == UndOf(DirEdges(F)) IN \A e \in Range(S) : Count(
 
 \* face-connected bodies: sets of (1-based) face ids linked through shared edges
 FaceEdgeSet(F, k) == {Sorted(<<F[k][1], F[k][2]>>), Sorted(<<F[k][2], F[k][3]>>), Sorted(<<F[k][3], F[k][1]>>)}
-AdjSym(F, Among) == {p \in Among \X Among : p[1] # p[2] /\ FaceEdgeSet(F, p[1]) \cap FaceEdgeSet(F, p[2]) # {}}
-\* (every intermediate set is bound by a set constructor, not by LET: TLC re-evaluates a LET body on
-\*  each use inside a recursion, which here would grow exponentially with the depth)
-RECURSIVE Reach(_, _)
-Reach(A, Sym) ==
-    CHOOSE R \in {IF N = A THEN A ELSE Reach(N, Sym) :
-                     N \in {A \cup {p[2] : p \in {q \in Sym : q[1] \in A}}}} : TRUE
+\* Nbr[k]: the faces of Among that share an edge with face k
+NbrMap(F, Among) ==
+    LET ef == [e \in UNION {FaceEdgeSet(F, k) : k \in Among} |-> {k \in Among : e \in FaceEdgeSet(F, k)}]
+    IN [k \in Among |-> UNION {ef[e] : e \in FaceEdgeSet(F, k)} \ {k}]
+RECURSIVE Reach(_, _, _)
+Reach(A, Frontier, Nbr) ==
+    IF Frontier = {} THEN A
+    ELSE LET N == UNION {Nbr[k] : k \in Frontier} \ A IN Reach(A \cup N, N, Nbr)
 RECURSIVE Comps(_, _)
-Comps(Rest, Sym) ==
+Comps(Rest, Nbr) ==
     IF Rest = {} THEN {}
-    ELSE UNION {{R} \cup Comps(Rest \ R, Sym) : R \in {Reach({CHOOSE k \in Rest : TRUE}, Sym)}}
-Groups(F, Among) == UNION {Comps(Among, Sym) : Sym \in {AdjSym(F, Among)}}
+    ELSE LET k == CHOOSE x \in Rest : TRUE  R == Reach({k}, {k}, Nbr) IN {R} \cup Comps(Rest \ R, Nbr)
+Groups(F, Among) == Comps(Among, NbrMap(F, Among))
 Bodies(F) == Groups(F, 1..Len(F))
 
 \* ------------------------------------------------------------------- volume
